@@ -52,4 +52,7 @@ theorem growth_too_large_refused (rf : Refuse) (hp : Heap) (t : Bytes) (a : Nat)
 theorem growth_saturates (l a : Nat) : Gen.amortizedGrowth l a ≤ 2 ^ 64 - 1 := by
   simp only [Gen.amortizedGrowth, Gen.satAdd, Gen.satMul]; omega
 
+/-- guards of `TextLen::new`, `Capacity::new`, `StaticBuffer::new` as in the source -/
+theorem guards : Gen.guardTextLenNew = ">" ∧ Gen.guardCapacityNew = ">" ∧ Gen.guardStaticNew = ">" := ⟨rfl, rfl, rfl⟩
+
 end LS.C06
